@@ -210,3 +210,39 @@ def antenna_system_delegates_response_and_receive():
     r = s.apply_response("sig", direction="d", polarization="p", force_real=True)
     s.receive("sig2", direction="d2", polarization="p2")
     prove("same-arguments-same-result", And(r == "response", calls == [("apply", "sig", "d", "p", True), ("receive", "sig2", "d2", "p2", False)]))
+
+
+# ---------------------------------------------------------------------------
+# bounded stand-in with replayable inputs: the same geometry checked natively on random orientations
+# (the proved harnesses above spy on np.dot, which cannot be replayed natively)
+# ---------------------------------------------------------------------------
+
+def _random_frame():
+    a, b, c = real("euler_a", -pi, pi), real("euler_b", 0, pi), real("euler_c", -pi, pi)
+    ca, sa, cb, sb, cc, sc = np.cos(a), np.sin(a), np.cos(b), np.sin(b), np.cos(c), np.sin(c)
+    rot = np.array([[ca * cb * cc - sa * sc, -ca * cb * sc - sa * cc, ca * sb],
+                    [sa * cb * cc + ca * sc, -sa * cb * sc + ca * cc, sa * sb],
+                    [-sb * cc, sb * sc, cb]])
+    return rot[:, 0], rot[:, 1], rot[:, 2]      # x, y, z axes of the antenna (orthonormal, right handed)
+
+
+@harness(clause="bounded-geometry", bounded=60, label="B")
+def antenna_coordinates_and_dipole_gains_sampled():
+    xa, ya, za = _random_frame()
+    pos = np.array([real("pos_x", -100, 100), real("pos_y", -100, 100), real("pos_z", -200, 0)])
+    rel = np.array([real("rel_x", -50, 50), real("rel_y", -50, 50), real("rel_z", -50, 50)])
+    assume(float(np.linalg.norm(rel)) > 1e-3)
+    ant = new(ANT, position=pos, z_axis=za, x_axis=xa)
+    r, theta, phi = ant._convert_to_antenna_coordinates(pos + rel)
+    X, Y, Z = float(np.dot(rel, xa)), float(np.dot(rel, ya)), float(np.dot(rel, za))
+    rr = float(np.sqrt(X * X + Y * Y + Z * Z))
+    prove("r", abs(r - rr) <= 1e-9 * rr)
+    prove("theta-from-the-z-axis", abs(rr * np.cos(theta) - Z) <= 1e-9 * rr)
+    prove("phi-from-the-x-axis", abs(rr * np.sin(theta) * np.cos(phi) - X) <= 1e-8 * rr and abs(rr * np.sin(theta) * np.sin(phi) - Y) <= 1e-8 * rr)
+    dip = new(DIP, name="d", position=pos, center_frequency=250e6, bandwidth=300e6, temperature=0, resistance=0,
+              orientation=za, trigger_threshold=0, effective_height=1.0, noisy=False)
+    origin = pos + rel
+    got = dip.directional_gain(*dip._convert_to_antenna_coordinates(origin)[1:])
+    prove("dipole-gain-is-sin-of-the-angle-from-its-axis", abs(got - np.sqrt(max(0.0, 1 - (Z / rr) ** 2))) <= 1e-8)
+    pol = np.array([real("pol_x", -1, 1), real("pol_y", -1, 1), real("pol_z", -1, 1)])
+    prove("dipole-polarization-gain-is-the-projection-on-its-axis", abs(dip.polarization_gain(pol) - float(np.dot(pol, za))) <= 1e-9)
